@@ -35,7 +35,9 @@ CONSTANTS
   Weak_RefetchIgnored,       \* refetch_chunks not discarded
   Weak_RejectSendersIgnored, \* reject_senders ignored
   Weak_DupOverwrites,        \* a duplicate chunk overwrites the stored bytes, not the sender
-  Weak_RejectNotBlacklisted  \* Reject(snapshot) removes it but does not blacklist it
+  Weak_RejectNotBlacklisted, \* Reject(snapshot) removes it but does not blacklist it
+  Weak_FormatNotBlacklisted, \* RejectFormat removes the snapshots of the format but does not blacklist it
+  Weak_NoSyncerLevelCheck    \* only the queue remembers rejected senders (syncer.AddChunk does not ask the pool)
 
 Nil == "nil"
 NoSnap == [h |-> 0, f |-> 0, n |-> 0, hash |-> Nil, meta |-> Nil]
@@ -89,22 +91,24 @@ BestSet(pool) == {s \in DOMAIN pool : \A t \in DOMAIN pool : ~Better(pool, t, s)
 PeersOf(pool, s) == IF s \in DOMAIN pool THEN pool[s] ELSE {}
 
 \* ---------------------------------------------------------------- chunk queue (chunks.go)
-\* q = [open, n, e], e[i] = [b, s, alloc, ret]: chunkFiles (content), chunkSenders,
-\* chunkAllocated, chunkReturned.  b = Nil: no file.
+\* q = [open, n, e, rej], e[i] = [b, s, alloc, ret]: chunkFiles (content), chunkSenders,
+\* chunkAllocated, chunkReturned.  b = Nil: no file.  rej: senders discarded by DiscardSender
+\* (the `rejected` set of the repaired queue; always empty in the code before the repair).
 EmptyEntry == [b |-> Nil, s |-> Nil, alloc |-> FALSE, ret |-> FALSE]
-QNew(n)    == [open |-> TRUE, n |-> n, e |-> [i \in 0..(n - 1) |-> EmptyEntry]]
-NoQueue    == [open |-> FALSE, n |-> 0, e |-> [i \in {} |-> EmptyEntry]]
+QNew(n)    == [open |-> TRUE, n |-> n, e |-> [i \in 0..(n - 1) |-> EmptyEntry], rej |-> {}]
+NoQueue    == [open |-> FALSE, n |-> 0, e |-> [i \in {} |-> EmptyEntry], rej |-> {}]
 QIdx(q)    == 0..(q.n - 1)
 QHas(q, i) == i \in QIdx(q) /\ q.e[i].b # Nil
 
 \* chunkQueue.Add for a chunk c = [h, f, i, b, s] against snapshot snap -> [q, res]
-\* res: "added" | "dup" | "closed" | "err"
+\* res: "added" | "dup" | "closed" | "err" | "rejected"
 QAdd(q, snap, c) ==
   IF ~q.open THEN [q |-> q, res |-> "closed"]
   ELSE IF c.h # snap.h \/ c.f # snap.f \/ c.i < 0 \/ c.i >= q.n THEN [q |-> q, res |-> "err"]
   ELSE IF QHas(q, c.i) THEN
        IF Weak_DupOverwrites THEN [q |-> [q EXCEPT !.e[c.i].b = c.b], res |-> "dup"]
                              ELSE [q |-> q, res |-> "dup"]
+  ELSE IF c.s \in q.rej THEN [q |-> q, res |-> "rejected"]
   ELSE [q |-> [q EXCEPT !.e[c.i].b = c.b, !.e[c.i].s = c.s], res |-> "added"]
 
 \* discard(index): only a stored chunk is discarded; it becomes allocatable and unreturned
@@ -114,7 +118,8 @@ QDiscard(q, i) ==
 QDiscardSender(q, p) ==
   IF ~q.open THEN q
   ELSE [q EXCEPT !.e = [i \in QIdx(q) |->
-          IF q.e[i].b # Nil /\ q.e[i].s = p /\ ~q.e[i].ret THEN EmptyEntry ELSE q.e[i]]]
+          IF q.e[i].b # Nil /\ q.e[i].s = p /\ ~q.e[i].ret THEN EmptyEntry ELSE q.e[i]],
+                 !.rej = IF Fix_DropRejectedSenderChunks THEN @ \cup {p} ELSE @]
 QRetry(q, i)  == [q EXCEPT !.e[i].ret = FALSE]
 QRetryAll(q)  == [q EXCEPT !.e = [i \in QIdx(q) |-> [q.e[i] EXCEPT !.ret = FALSE]]]
 QClose(q)     == [q EXCEPT !.open = FALSE]
@@ -129,6 +134,19 @@ NextChoices(q) ==
   ELSE {NextUp(q)}
 \* Allocate: lowest unallocated index, -1 = errDone
 AllocUp(q) == IF ~q.open \/ Unallocated(q) = {} THEN -1 ELSE SetMin(Unallocated(q))
+
+\* ---------------------------------------------------------------- state provider (stateprovider.go)
+\* lightClientStateProvider over the chain its light client verified:
+\*   lb : height -> [apphash, appver, lrh, vals, bid]   (fields of the verified light block)
+\* AppHash(h) is the AppHash of header h+1 (and h+2 must be verifiable too), Commit(h) the
+\* commit of block h, State(h) is assembled from blocks h (last), h+1 (current), h+2 (next).
+SPNeeds(call, h)   == IF call = "commit" THEN {h} ELSE {h, h + 1, h + 2} \ (IF call = "apphash" THEN {h} ELSE {})
+SPAppHashOf(lb, h) == lb[h + 1].apphash
+SPCommitOf(lb, h)  == [height |-> h, bid |-> lb[h].bid]
+SPStateOf(lb, h)   == [height |-> h, apphash |-> lb[h + 1].apphash, appver |-> lb[h + 1].appver,
+                       lbid |-> lb[h].bid, lrh |-> lb[h + 1].lrh,
+                       lastvals |-> lb[h].vals, vals |-> lb[h + 1].vals, nextvals |-> lb[h + 2].vals,
+                       chain |-> "T:chain"]
 
 \* ---------------------------------------------------------------- property predicates
 \* (evaluated at the step named; used by the design spec and by the trace spec)
@@ -198,7 +216,7 @@ XRemovePeer(S, p) == [S EXCEPT !.pool = PoolRemovePeer(S.pool, p)]
 \* c = [h, f, i, b, s]; -> [S, res]; res: nosync | rejected | added | dup | closed | err
 XArrive(S, c) ==
   IF ~S.sy.active THEN [S |-> S, res |-> "nosync"]            \* s.chunks == nil
-  ELSE IF Fix_DropRejectedSenderChunks /\ c.s \in S.bl.peer THEN [S |-> S, res |-> "rejected"]
+  ELSE IF Fix_DropRejectedSenderChunks /\ ~Weak_NoSyncerLevelCheck /\ c.s \in S.bl.peer THEN [S |-> S, res |-> "rejected"]
   ELSE LET r == QAdd(S.q, S.sy.cur, c) IN
        IF r.res # "added" THEN [S |-> [S EXCEPT !.q = r.q], res |-> r.res]
        ELSE [S |-> [S EXCEPT !.q = r.q,
@@ -339,7 +357,8 @@ XAfterSync(S) ==
                           !.bl.snap = IF Weak_RejectNotBlacklisted THEN @ ELSE @ \cup {cur},
                           !.gh.rej.snap = @ \cup {cur}]
        [] S.sy.ret = "reject_format" ->                                     \* snapshots.RejectFormat
-            [again EXCEPT !.pool = PoolRejectFormat(@, cur.f), !.bl.fmt = @ \cup {cur.f},
+            [again EXCEPT !.pool = PoolRejectFormat(@, cur.f),
+                          !.bl.fmt = IF Weak_FormatNotBlacklisted THEN @ ELSE @ \cup {cur.f},
                           !.gh.rej.fmt = @ \cup {cur.f}]
        [] S.sy.ret = "reject_sender" ->                                     \* RejectPeer(each of GetPeers)
             LET ps == PeersOf(S.pool, cur) IN
